@@ -375,6 +375,10 @@ C17_LineageStep ==
         (IsGenDerived(traces'[act'.x.to]) <=> IsGenDerived(traces[act'.x.from]))
   /\ \A a \in Addrs : (traces[a].has /\ act'.name # "export") => traces'[a] = traces[a]
 C17_Lineage == [][(act'.name # "init") => C17_LineageStep]_vars
+\* C12 (documented deviation, known finding F8): x/auth's genesis validation wants start < end for every continuous vesting
+\* account; the documented schedule of a non-restart send (start = end = lock end) and a zero vesting period violate it.
+\* Not checked on the reference model (it is false there by design); the harness evaluates it on the real accounts at export.
+C12_AuthGenesisValid == \A a \in Addrs : acct[a].kind = "cv" => acct[a].start < acct[a].end
 \* C13: the denomination cannot change while pools exist; only governance changes it
 C13_Denom == [][(act'.name # "init") => ((vdenom' # vdenom) => (act'.name = "updatedenom" /\ act'.auth = "gov" /\ \A o \in Addrs : pools[o] = <<>>))]_vars
 =============================================================================
